@@ -211,7 +211,7 @@ def view(pid, cmd, line):
     """canonical projection of one observation line for property pid, or None if irrelevant"""
     k = line[:1]
     if pid == "C01": return a_links(line) if k == "a" else None
-    if pid == "C02": return line if k in "ri" else None
+    if pid == "C02": return a_links(line) if k == "a" else (line if k in "ri" else None)
     if pid == "C03": return a_links(line) if k == "a" else (line if k == "e" else None)
     if pid == "C04": return a_links(line) if k == "a" else None
     if pid == "C05": return line if k in "ra" else None
@@ -481,7 +481,33 @@ def check(pid, tier, seed):
         # something no longer checks: search for a concrete failing input with the monitors
         found = None
         try:
-            for s in range(1, 5):
+            # (a) random continuations of the states where model and implementation first diverge
+            for (r, d) in diffs[:4]:
+                if found: break
+                hops = history_ops(r["ops"], d["hist"])
+                # cut after the diverging command (line index is global: recompute within the history)
+                cut = None
+                all_ops = [l.rstrip("\n") for l in open(r["ops"], errors="replace") if l.strip() and not l.startswith("#")]
+                start = None
+                for i, c in enumerate(all_ops):
+                    if c == "hist %d" % d["hist"]: start = i
+                if start is not None:
+                    cut = d["line"] - start + 1
+                pre = [c for c in hops[:cut] if not c.startswith("end")] if cut else hops[:-1]
+                pf = os.path.join(wd, "prefix.%s.%d.ops" % (r["build"], d["hist"]))
+                open(pf, "w").write("\n".join(pre) + "\n")
+                for prof in ("core", "alloc"):
+                    tag = "cont.%s.%s.%d" % (prof, r["build"], d["hist"])
+                    ops2, obs2, st2 = [os.path.join(wd, tag + e) for e in (".ops", ".obs", ".json")]
+                    rc, out = sh([bins[r["build"]], "gen", "--seed", str(seed * 31 + d["hist"]), "--hists", "400", "--len", "30", "--profile", prof,
+                                  "--prefix", pf, "--ops", ops2, "--obs", obs2, "--stats", st2], timeout=300)
+                    r2 = dict(tag=tag, profile=prof + "+prefix", build=r["build"], seed=seed, hists=400, ops=ops2, obs=obs2, diffs=[], mon=[], hang=None, stats={}, stat={}, lines=0)
+                    if rc == 124: r2["hang"] = "a continuation did not return"
+                    if not os.path.exists(obs2): continue
+                    r2 = analyse(pid, r2, ops2, obs2, os.path.join(wd, tag + ".model"), os.path.join(wd, tag + ".mon"), st2, r["build"])
+                    hit = [m for m in r2["mon"] if m["prop"] == pid and not is_known(pid, m, findings)]
+                    if hit: found = (r2, hit[0]); break
+            for s in ([] if found else range(1, 5)):
                 for prof in (PROPS[pid]["profiles"] or ["core"]):
                     for b in ("debug", "release"):
                         r2 = run_batch(pid, wd, bins[b], b, prof, seed * 7919 + s * 31, 1500, 45)
